@@ -597,10 +597,13 @@ impl<'a> Parser<'a> {
             }
         }
 
-        self.expect_and_consume_token(
-            Token::SemiColon,
-            ParserErrorType::ExpectedSemiColon
-        )?;
+        // The semicolon is optional after the last statement of the text, as for a query
+        if self.current() != &Token::End {
+            self.expect_and_consume_token(
+                Token::SemiColon,
+                ParserErrorType::ExpectedSemiColon
+            )?;
+        }
 
         Ok(
             ParserOperationTree::CreateTable {
